@@ -440,6 +440,26 @@ func checkC03(sc *Scenario, h *History) []Violation {
 			evs = append(evs, e)
 		}
 	}
+	// The limit as the backend sees it: between two transaction boundaries it is told
+	// about (Reset, a new session, Logout) it never accepts more recipients than the
+	// configured maximum - whatever the client did in between (a second MAIL included).
+	if sc.Srv.MaxRcpt > 0 {
+		n := 0
+		for _, e := range evs {
+			switch e.Kind {
+			case "Reset", "NewSession", "Logout":
+				n = 0
+			case "Rcpt":
+				if e.Done && e.Res == "" && !e.Panicked {
+					n++
+					if n > sc.Srv.MaxRcpt {
+						out = append(out, Violation{Rule: "C03.max-recipients", Detail: fmt.Sprintf("the backend accepted recipient number %d (%s) of a transaction it was never told had ended, MaxRecipients=%d", n, e.Arg, sc.Srv.MaxRcpt), Witness: wit})
+						n = -1 << 30
+					}
+				}
+			}
+		}
+	}
 	items := mergeHistory(w, evs)
 	v := func(rule, format string, a ...interface{}) {
 		out = append(out, Violation{Rule: rule, Detail: fmt.Sprintf(format, a...), Witness: wit})
